@@ -173,11 +173,12 @@ func decodeScalar(data []byte, oid int) interface{} {
 	// Integers
 	case OidInt2:
 		return i16(data, 0)
-	case OidInt4, OidXid, OidCid:
+	case OidInt4:
 		return i32(data, 0)
 	case OidInt8:
 		return i64(data, 0)
-	case OidOid:
+	case OidOid, OidXid, OidCid:
+		// xid and cid are unsigned 32-bit counters, like oid
 		return u32(data, 0)
 	case OidTid:
 		return fmt.Sprintf("(%d,%d)", u32(data, 0), u16(data, 4))
